@@ -1193,6 +1193,23 @@ def run(prop, tier, seed):
                 out.violations.append({"tag": tag, "kind": "editor object reused across calls", "history": "one RichMrgnEditor object: add_locations([X]) ; add a trigger pinging a new location Y ; save ; reload ; add_locations([Z])",
                                        "oracle": "every location keeps a slot of its own and every reference its target, however editor objects are reused", "problem": pr, "key": None,
                                        "hex": data.hex() if len(data) < 40000 else None, "fixture": tag if tag.startswith("fixture") else None})
+    if prop == "C07":
+        done = 0
+        for tag, data in base_maps(rng, spec, tier):
+            if len(data) > 500000 or done >= 3:
+                continue
+            try:
+                probs = two_variants_scenario(data, spec)
+            except Exception as ex:  # noqa: BLE001
+                probs = ["the history raised %s" % err_class(ex)]
+            if probs is None:
+                continue
+            done += 1
+            out.case("two-variants-of-one-object", ("variants:" + tag).encode() + data[:64], sample={"base": tag, "history": "load once ; A = add a trigger ; B = upsert a unit (from the same object) ; save B ; save the original", "problems": probs[:2]})
+            for pr in probs[:2]:
+                out.violations.append({"tag": tag, "kind": "two edits of one loaded object", "history": "load once ; variant A = replace(TRIG + 1 trigger) ; variant B = replace(unit settings + 1 unit) from the same object ; save B ; save the original",
+                                       "oracle": "an edit produces a new map and leaves the one it started from as it was: other variants and the original are unaffected", "problem": pr, "key": None,
+                                       "hex": data.hex() if len(data) < 40000 else None, "fixture": tag if tag.startswith("fixture") else None})
     lines = [scenario_line(sc) for sc in scenarios]
     model = None
     try:
@@ -1297,6 +1314,56 @@ def editor_reuse_scenario(data, spec):
     pings = [a["_location_id"] for t2 in trigs[-1:] for a in t2["acts"] if a["_action_id"] == 28]
     if "Y" in where and pings != [where["Y"]]:
         probs.append("the trigger authored with location Y refers to slot %s, Y is in slot %s" % (pings, where.get("Y")))
+    return probs
+
+
+def two_variants_scenario(data, spec):
+    """real code only: ONE loaded map object is edited twice, independently (variant A gets a trigger, variant B a
+    unit setting).  Saving B must give what B alone gives on a fresh load, and saving the untouched original must
+    still give the unedited save.  Returns problems (None = not applicable)."""
+    from richchk.editor.richchk.rich_chk_editor import RichChkEditor
+    from richchk.editor.richchk.rich_trig_editor import RichTrigEditor
+    from richchk.editor.richchk.rich_unis_editor import RichUnisEditor
+    from richchk.editor.richchk.rich_unix_editor import RichUnixEditor
+    from richchk.model.richchk.str.rich_string import RichString
+    from richchk.model.richchk.trig.actions.display_text_message_action import DisplayTextMessageAction
+    from richchk.model.richchk.trig.conditions.always_condition import AlwaysCondition
+    from richchk.model.richchk.trig.player_id import PlayerId
+    from richchk.model.richchk.trig.rich_trig_section import RichTrigSection
+    from richchk.model.richchk.trig.rich_trigger import RichTrigger
+    from richchk.model.richchk.unis.rich_unis_section import RichUnisSection
+    from richchk.model.richchk.unis.unit_id import UnitId
+    from richchk.model.richchk.unis.unit_setting import UnitSetting
+    from richchk.model.richchk.unix.rich_unix_section import RichUnixSection
+
+    cio, rio = shared_io()
+    load = lambda: rio.decode_chk(cio.decode_chk_binary_data(data))  # noqa: E731
+    save = lambda r: cio.encode_chk_to_bytes(rio.encode_chk(r))  # noqa: E731
+    base = load()
+    trig = find_section(base, RichTrigSection)
+    units = next((s for s in base.chk_sections if isinstance(s, (RichUnisSection, RichUnixSection))), None)
+    if trig is None or units is None:
+        return None
+    mk_t = lambda: RichTrigger(_conditions=[AlwaysCondition()], _actions=[DisplayTextMessageAction(_text=RichString("variant A only"))], _players={PlayerId.PLAYER_2})  # noqa: E731
+    mk_u = lambda: UnitSetting(_unit_id=UnitId.ZERG_ZERGLING, _hitpoints=Decimal(77), _shieldpoints=1, _armorpoints=2, _build_time=3, _mineral_cost=4, _gas_cost=5,  # noqa: E731
+                               _custom_unit_name=RichString("variant B only"), _weapons=[])
+
+    def edit_b(r):
+        u = next(s for s in r.chk_sections if isinstance(s, (RichUnisSection, RichUnixSection)))
+        ed = RichUnisEditor() if isinstance(u, RichUnisSection) else RichUnixEditor()
+        return RichChkEditor().replace_chk_section(ed.upsert_unit_setting(mk_u(), u), r)
+
+    want_unedited = save(load())
+    want_b = save(edit_b(load()))
+    RichChkEditor().replace_chk_section(RichTrigEditor.add_triggers([mk_t()], trig), base)      # variant A, result dropped
+    got_b = save(edit_b(base))                                                                   # variant B from the SAME object
+    got_unedited = save(base)
+    probs = []
+    if got_b != want_b:
+        va, vb = refchk.game_view(want_b, spec), refchk.game_view(got_b, spec)
+        probs.append("variant B saved from the shared object differs from variant B saved from a fresh load (triggers %d vs %d)" % (len(vb["triggers"]), len(va["triggers"])))
+    if got_unedited != want_unedited:
+        probs.append("the untouched original no longer saves as the unedited map")
     return probs
 
 
